@@ -158,6 +158,7 @@ fn drive<P: Prop>(p: &P, a: &Args) -> i32 {
     let res = engine::explore_mp(
         shapes.len(),
         |i| p.run(&shapes[i]),
+        &|i, ints, bools, msg| p.attribute(&shapes[i], ints, bools, msg),
         ExploreOpts {
             recheck_every: p.recheck_every(a.tier),
             seed: a.seed,
@@ -184,7 +185,7 @@ fn drive<P: Prop>(p: &P, a: &Args) -> i32 {
     let _ = std::fs::create_dir_all(&replay_dir);
     let relplay_bin = a.verif_dir.join("target/symx/relplay/symx");
     let mut n_viol = 0usize;
-    let mut n_known = 0usize;
+    let n_known: u64 = res.stats.witness.iter().filter(|(k, _)| k.starts_with("attributed:")).map(|(_, v)| *v).sum();
     let mut validated = res.stats.concrete_replays;
     let mut reported_sites: std::collections::BTreeSet<String> = Default::default();
     let mut reported_msgs: std::collections::BTreeSet<String> = Default::default();
@@ -238,7 +239,7 @@ fn drive<P: Prop>(p: &P, a: &Args) -> i32 {
             continue;
         }
         // 3. attribution to a listed known finding
-        let site = p.attribute(shape, &v.ints, &v.bools, &v.msg);
+        let site = v.site.clone();
         let known = site.as_ref().and_then(|s| {
             kf.iter().find(|f| {
                 f["status"] == "known"
@@ -247,7 +248,6 @@ fn drive<P: Prop>(p: &P, a: &Args) -> i32 {
             })
         });
         if let Some(f) = known {
-            n_known += 1;
             let s = site.unwrap();
             if reported_sites.insert(s.clone()) {
                 println!(
@@ -366,6 +366,10 @@ fn main() {
     }
     let code = match a.id.as_str() {
         "C01" => drive(&props::c01::C01, &a),
+        "C02" => drive(&props::captured::Captured(props::captured::Which::C02), &a),
+        "C03" => drive(&props::captured::Captured(props::captured::Which::C03), &a),
+        "C09" => drive(&props::captured::Captured(props::captured::Which::C09), &a),
+        "C11" => drive(&props::captured::Captured(props::captured::Which::C11), &a),
         other => {
             eprintln!("unknown property {}", other);
             2
